@@ -16,6 +16,8 @@ import Tranp.Driver.Infer
 import Tranp.Driver.Emit
 import Tranp.Driver.Runner
 import Tranp.Driver.Scope
+import Tranp.Driver.Engine
+import Tranp.Driver.Rules
 
 open Tranp.Driver
 
@@ -38,4 +40,6 @@ def main (args : List String) : IO UInt32 := do
   | ["emit"] => EmitFam.run; return 0
   | ["runner"] => Runner.run; return 0
   | ["scope"] => Scope.run; return 0
+  | ["engine"] => Engine.run; return 0
+  | ["rules"] => Rules.run; return 0
   | _ => IO.eprintln s!"unknown driver family: {args}"; return 2
